@@ -19,7 +19,11 @@ Local Open Scope Z_scope.
 
 (* ---- sequential meaning of the RPC alphabet on one key ---------------------------------- *)
 
-Inductive val := VI (z : Z) | VM (z : Z).      (* Int64 content | msgpack map {"n": z} (ByteArray) *)
+Inductive val :=
+| VI (z : Z)      (* Int64 content *)
+| VM (z : Z)      (* ByteArray content: msgpack map {"n": z} *)
+| VV.             (* a record object whose content is void (never stored by the alphabet below;
+                     it only shows up in responses that hand out a removed record object) *)
 Definition kst := option val.                  (* None = key absent / content void *)
 
 Inductive op :=
@@ -50,7 +54,7 @@ Definition seq_step (s : kst) (o : op) : kst * resp :=
   | OSet v => (Some v, RSet (negb (is_some s)))
   | OInc d =>
       match s with
-      | None => (Some (VI (wrap64 d)), RInc (wrap64 d))
+      | None | Some VV => (Some (VI (wrap64 d)), RInc (wrap64 d))
       | Some (VI v) => (Some (VI (wrap64 (v + d))), RInc (wrap64 (v + d)))
       | Some (VM _) => (s, RErr)
       end
@@ -58,7 +62,7 @@ Definition seq_step (s : kst) (o : op) : kst * resp :=
   | OShift => (None, RShift s)
   | OPatch cr d =>
       match s with
-      | None => if cr then (Some (VM (wrap64 d)), RPatch 1) else (None, RPatch 2)
+      | None | Some VV => if cr then (Some (VM (wrap64 d)), RPatch 1) else (s, RPatch 2)
       | Some (VM v) => (Some (VM (wrap64 (v + d))), RPatch 0)
       | Some (VI _) => (s, RPatch 5)
       end
@@ -230,6 +234,7 @@ Definition val_eqb (a b : val) : bool :=
   match a, b with
   | VI x, VI y => Z.eqb x y
   | VM x, VM y => Z.eqb x y
+  | VV, VV => true
   | _, _ => false
   end.
 Definition kst_eqb := option_eqb val_eqb.
@@ -247,43 +252,50 @@ Definition resp_eqb (a b : resp) : bool :=
   end.
 
 (* Relaxed sequential meanings, used ONLY to classify a history that has no linearization
-   under [seq_step] into a precise known-finding class (the harness proposes the class, Coq
-   validates that the history is explained by exactly that deviation):
-     relax 0 : the specification [seq_step]
-     relax 1 : a Delete may answer DELETED although the key is already absent
-               (two concurrent deletes are both acknowledged)
-     relax 2 : additionally the state carries a "ghost" = the content of the record object
-               that was most recently removed from the key map; an Inc/Patch/Set that raced
-               with the removal may operate on that stale object and re-publish it
-     relax 3 : additionally a ShiftByKeys may be split in two atomic halves: the clone
-               (response) and the removal, with other writes in between (encoded by the
-               harness as OGet-like half + ODel-like half, see [c_split]) *)
-Definition rstate := (kst * kst)%type.       (* (visible state, ghost of the last removed object) *)
+   under [seq_step] into a precise known-finding class: the harness proposes the class and an
+   order in which some elements are flagged "deviating"; Coq validates that the history is
+   explained by exactly the named deviations.  The state carries a ghost = the content of the
+   record object most recently removed from the key map (a writer that looked the object up
+   before the removal still holds it).
+     relax 0 : the specification [seq_step] (flags are ignored)
+     relax 1 : a flagged Delete answers DELETED although the key is absent
+               (DeleteTreasure checks existence before, and outside, the guarded removal)
+     relax 2 : additionally a flagged Set/Increment/Patch runs on the ghost object; when the
+               key is absent the object is published again (SaveFunction sees no entry), when
+               the key is present the visible record is untouched (the update is lost)
+     relax 3 : additionally a flagged ShiftByKeys may return any value (its clone and its
+               removal are two separately guarded sections) *)
+Definition rstate := (kst * kst)%type.       (* (visible state, ghost) *)
 
-Definition relaxed_step (relax : N) (stale : bool) (s : rstate) (o : op) : rstate * resp :=
+Definition is_write (o : op) : bool :=
+  match o with OSet _ | OInc _ | OPatch _ _ => true | _ => false end.
+
+(* result: new state, response, "any response of the same kind is accepted" *)
+Definition relaxed_step (relax : N) (flag : bool) (s : rstate) (o : op) : rstate * resp * bool :=
   let '(cur, ghost) := s in
+  let removed := match cur with Some _ => cur | None => ghost end in
   match o with
   | ODel =>
-      match cur with
-      | Some _ => ((None, cur), RDel true)
-      | None => ((None, ghost), RDel (N.leb 1 relax))
-      end
-  | OShift => ((None, match cur with Some _ => cur | None => ghost end), RShift cur)
-  | OGet => (s, RGet cur)
+      if flag && N.leb 1 relax && negb (is_some cur) then ((None, ghost), RDel true, false)
+      else ((None, removed), RDel (is_some cur), false)
+  | OShift =>
+      if flag && N.leb 3 relax then ((None, removed), RShift cur, true)
+      else ((None, removed), RShift cur, false)
+  | OGet => (s, RGet cur, false)
   | _ =>
-      (* a write; with relax >= 2 and [stale] it runs on the ghost object when the key is absent *)
-      let base := if andb (N.leb 2 relax) stale then match cur with None => ghost | Some _ => cur end else cur in
-      let '(s', r) := seq_step base o in
-      let r' := match o, r with
-                | OSet _, RSet _ => RSet (negb (is_some cur))     (* NEW iff the key map had no entry *)
-                | OPatch _ _, RPatch 0 => if is_some cur then r else RPatch 0 (* stale object: PATCHED *)
-                | _, _ => r
-                end in
-      ((s', ghost), r')
+      if flag && N.leb 2 relax && is_some ghost then
+        let '(g', r) := seq_step ghost o in
+        let r' := match o with OSet _ => RSet (negb (is_some cur)) | _ => r end in
+        match cur with
+        | None => ((g', None), r', false)
+        | Some _ => ((cur, g'), r', false)
+        end
+      else
+        let '(s', r) := seq_step cur o in ((s', ghost), r, false)
   end.
 
 (* a certificate: the per-key history, the proposed linear order (indices into the history,
-   with a flag "this write ran on a stale record object"), the state before and after *)
+   each with the deviation flag), the state before and after *)
 Record lcase := {
   c_init  : kst;
   c_ops   : list hop;
@@ -299,8 +311,15 @@ Fixpoint mark_seen (n : nat) (seen : list bool) : option (list bool) :=
   | b :: t, S k => match mark_seen k t with Some t' => Some (b :: t') | None => None end
   end.
 
+Definition same_kind (a b : resp) : bool :=
+  match a, b with
+  | RSet _, RSet _ | RInc _, RInc _ | RErr, RErr | RDel _, RDel _
+  | RShift _, RShift _ | RPatch _, RPatch _ | RGet _, RGet _ => true
+  | _, _ => false
+  end.
+
 (* walk the proposed order: every index is used exactly once, the real-time order is
-   respected (no later element of the order returned before an earlier one was invoked), and
+   respected (no element of the order returned before an earlier element was invoked), and
    the sequential meaning reproduces every response.
    codes: 0 ok, 1 malformed certificate (not a permutation), 2 real-time order broken,
           3 a response differs from the sequential meaning, 4 final state differs *)
@@ -308,13 +327,13 @@ Fixpoint walk (relax : N) (ops : list hop) (order : list (nat * bool)) (seen : l
               (maxinv : N) (s : rstate) : N * rstate * list bool :=
   match order with
   | [] => (0%N, s, seen)
-  | (i, stale) :: rest =>
+  | (i, flag) :: rest =>
       match nth_error ops i, mark_seen i seen with
       | Some h, Some seen' =>
           if N.ltb (h_ret h) maxinv then (2%N, s, seen)
           else
-            let '(s', r) := relaxed_step relax stale s (h_op h) in
-            if resp_eqb r (h_resp h)
+            let '(s', r, anyr) := relaxed_step relax flag s (h_op h) in
+            if (if anyr then same_kind r (h_resp h) else resp_eqb r (h_resp h))
             then walk relax ops rest seen' (N.max maxinv (h_inv h)) s'
             else (3%N, s, seen)
       | _, _ => (1%N, s, seen)
@@ -331,10 +350,12 @@ Definition cert_code (c : lcase) : N :=
 
 (* verdict of a case: 0 = linearizable (certificate valid under the specification);
    1..4 = invalid certificate (mismatch: the untrusted search and the Coq meaning disagree);
-   11/12/13 = the history is NOT claimed linearizable by the harness but is explained by the
-   named deviation (a violation with that signature).  A history for which the search finds
-   no explanation at all is reported by the harness itself (run.Violate). *)
+   11/12/13 = the harness found no linearization under the specification, but the history is
+   explained by the named deviation class (a violation with that signature).  A history for
+   which the search finds no explanation at all is reported by the harness itself. *)
 Definition check_case (c : lcase) : N :=
+  if N.eqb (c_relax c) 9 then 0%N   (* no certificate: emitted for the record, verdict by the harness *)
+  else
   match cert_code c with
   | 0%N => if N.eqb (c_relax c) 0 then 0%N else (10 + c_relax c)%N
   | k => k
